@@ -23,8 +23,10 @@ def rec(name, rtype, variant, ttl, flush):
     elif rtype == 12:
         target = ["782e", "792e", "7a2e"][variant % 3]
     elif rtype == 47:
-        # NSEC: same next-domain-name, type bitmaps of one length that differ only after a zero octet
-        return "%s,47,%d,%d,n,-,%s,0,0,0,_,%s" % (name, 1 if flush else 0, ttl, name, ["0000000040", "0000800040", "0000000041"][variant % 3])
+        # NSEC: same next-domain-name; type bitmaps of one length that differ only after a zero octet (name a.), and
+        # bitmaps of different lengths of which one is a prefix of the other (the other names)
+        bms = ["0000000040", "0000800040", "0000000041"] if name == "612e" else ["40", "40000008", "4000"]
+        return "%s,47,%d,%d,n,-,%s,0,0,0,_,%s" % (name, 1 if flush else 0, ttl, name, bms[variant % 3])
     return "%s,%d,%d,%d,%s,%s,-,0,0,0,%s,." % (name, rtype, 1 if flush else 0, ttl, addr, target, attrs)
 
 
